@@ -7,12 +7,12 @@ NOT_APPLICABLE = {}
 TEXT = {
     "C01": dict(
         technique="runtime monitor: reference-model oracle over generated mapping ASTs (history + executable model), overflow-checked build",
-        level_text="Exploration: every line-based frame query of the complete finite query universe of each generated mapping (all printing variants: LF/CRLF/CR/mixed, noise and blank lines, permuted class blocks) is answered by mapper, mapper+param-index and cache and compared with an independent executable model of the ProGuard retrace rule. Holds on the executions produced, nothing more; semantic-case counters show which rules were actually exercised.",
+        level_text="Exploration: every line-based frame query of the complete finite query universe of each generated mapping (all printing variants: LF/CRLF/CR/mixed, noise and blank lines, permuted class blocks) is answered by mapper, mapper+param-index and cache and compared with an independent executable model of the ProGuard retrace rule. The workload includes identity-mapped (kept) classes and members, methods with hundreds of simultaneously applicable entries, classes with dozens of members in mixed order, structured near-miss class names (x/a.b, La.b;, padded) and query lines beyond 2^32. Holds on the executions produced, nothing more; semantic-case counters show which rules were actually exercised.",
         level_note="Trusted: the ~300-line reference model M (transcribed from the statement), the AST printer, rustc overflow checks. Assumes the representable domain and 8-aligned cache buffers.",
     ),
     "C02": dict(
         technique="runtime monitor: differential oracle mapper vs cache (write->parse->query) over generated, token-mutated and corpus mappings; ASan and Miri stages for the unsafe Pod casts",
-        level_text="Exploration: for every in-domain input file the complete per-class query universe (classes, methods, lines 0..66 + range boundaries + extremes, parameter strings, throwables, text/typed traces, descriptors) is sent to the mapper and to the cache produced from the same bytes and the answers are compared value for value; the thorough tier repeats a reduced workload under AddressSanitizer and Miri because every cache answer is read through unsafe casts.",
+        level_text="Exploration: for every in-domain input file the complete per-class query universe (classes, methods, lines 0..66 + range boundaries + extremes, parameter strings, throwables, text/typed traces, descriptors) is sent to the mapper and to the cache produced from the same bytes and the answers are compared value for value; all public mapper constructors (new, new_with_param_mapping, From<&str>, From<(&str,bool)>) are compared with each other; the thorough tier repeats a reduced workload under AddressSanitizer and Miri because every cache answer is read through unsafe casts.",
         level_note="Trusted: the adapter layer that converts library results to neutral values, rustc overflow checks, ASan/Miri. The mapper is the reference as the statement says; who is right is decided by C01/C03/C04.",
     ),
     "C03": dict(
@@ -27,7 +27,7 @@ TEXT = {
     ),
     "C05": dict(
         technique="runtime monitor: print->parse round trip against the record AST + independent reference line parser R; bounded-exhaustive token lines; corpus lines",
-        level_text="Exploration with exhaustively enumerated sub-spaces: every optional-part combination of generated record lines (4 terminators, alone and embedded in files with noise), the five documented malformed derivations of each, all token lines up to length 5/6 over a 12-token alphabet and every corpus line are parsed by the real parser and compared with the AST or with R's classification (well-formed -> exact parts, documented-malformed -> error carrying the line, otherwise totality only).",
+        level_text="Exploration with exhaustively enumerated sub-spaces: every optional-part combination of generated record lines (4 terminators, alone and embedded in files with noise), the five documented malformed derivations of each, all token lines up to length 5/6 over a 12-token alphabet and every corpus line are parsed by the real parser and compared with the AST or with R's classification; the record stream of every generated file is additionally obtained through nth/skip/step_by/count/last and a mid-way clone and compared with the next() sequence (well-formed -> exact parts, documented-malformed -> error carrying the line, otherwise totality only).",
         level_note="Trusted: the AST printer and the ~250-line reference parser R (cross-checked against the AST on every generated line; a disagreement aborts the run as inconclusive).",
     ),
     "C06": dict(
@@ -72,12 +72,12 @@ TEXT = {
     ),
     "C13": dict(
         technique="runtime monitor: panic/overflow trap (overflow-checked, debug-assertion build) + Result checks over hostile generators and fuzzed bytes; ASan stage for the write->parse round trip",
-        level_text="Exploration: hostile mapping bytes and hostile queries are pushed through every public entry point (mapper construction, cache write/parse, all query kinds with extreme line numbers, text and typed trace remapping, the try_parse functions, signature deobfuscation, metadata) while a process-wide panic hook records file:line of any panic inside the library and the build turns every arithmetic overflow into a panic.",
+        level_text="Exploration: hostile mapping bytes and hostile queries are pushed through every public entry point (mapper construction, cache write/parse, all query kinds with extreme line numbers, text and typed trace remapping, the try_parse functions, signature deobfuscation, metadata) while a process-wide panic hook records file:line of any panic inside the library and the build turns every arithmetic overflow into a panic; a mapping with one 60 000-entry method is exercised on a 2 MiB-stack thread in the optimised and in an unoptimised (debug) build, and a worker that dies inside a monitored call is reported as a violation.",
         level_note="Trusted: rustc overflow checks/debug assertions reach all library code because /repo is compiled as part of the harness build with that profile.",
     ),
     "C15": dict(
         technique="runtime monitor with fault enumeration: fault-injecting io::Write sinks whose event log (call index, offered, accepted/error) is checked offline against the canonical bytes",
-        level_text="Fault enumeration: for each mapping every chunk size 1..16 and, for every write call the serialiser makes, a short write, a hard failure, an Interrupted error and an Ok(0) are injected exactly there; success must mean the sink holds exactly the canonical bytes, a hard failure must be reported, and after a reported failure the sink holds a prefix of the canonical bytes. Per-site counters show that header, classes, members, by-params, strings and the three non-empty padding sites were all hit.",
+        level_text="Fault enumeration: for each mapping every chunk size 1..16 and, for every write call the serialiser makes, a short write, a hard failure, an Interrupted error and an Ok(0) are injected exactly there; success must mean the sink holds exactly the canonical bytes, a hard failure must be reported, and after a reported failure the sink holds a prefix of the canonical bytes. Every schedule runs against a plain sink and against a sink whose write_vectored gathers across buffers, and large mappings (sections > 64 KiB) are part of every run. Per-site counters show that header, classes, members, by-params, strings and the three non-empty padding sites were all hit.",
         level_note="Trusted: the sink implementations (~100 lines). Per mapping the schedule space is complete; mappings are sampled.",
     ),
     "C14": dict(
@@ -92,17 +92,17 @@ TEXT = {
     ),
     "C18": dict(
         technique="runtime monitor: independent SHA-1/UUIDv5 oracle + offline checker over the (input, uuid) event log with Python hashlib + cross-process equality + raced first call (TSan in thorough)",
-        level_text="Exploration: every input's UUID is recomputed by the harness's own SHA-1 based v5 implementation (namespace = v5(DNS, guardsquare.com)); logged entries are recomputed a second time offline by Python; corpus files are checked in LF and CRLF (must differ), one-bit variants must differ, copies must agree, the fixed set must agree across 16 processes, and the lazily initialised namespace is raced from 16 threads at process start.",
+        level_text="Exploration: every input's UUID is recomputed by the harness's own SHA-1 based v5 implementation (namespace = v5(DNS, guardsquare.com)); logged entries are recomputed a second time offline by Python; corpus files are checked in LF and CRLF (must differ), one-bit variants must differ, copies must agree, the fixed set must agree across 16 processes, sub-mappings (section(), incl. cuts between CR and LF, before and after the parent's UUID was computed) and clones must be identified by their own bytes, files decorated with byte-order marks / identifier-shaped headers must not be normalised, and the lazily initialised namespace is raced from 16 threads at process start.",
         level_note="Trusted: two independent SHA-1 implementations (harness, Python hashlib) and the repository's recorded value for mapping-r8.txt.",
     ),
     "C19": dict(
         technique="runtime monitor: reference folds over the generator's AST item stream, boundary-focused workload (item 49/50/51, thousands of leading records)",
-        level_text="Exploration: has_line_info, the five summary fields and is_valid are compared with folds computed from the AST for files built to stress scan limits (decisive records beyond item 50, after error lines, after 5000 unmapped methods, in an unterminated last line) and header handling (repeated, valueless, malformed, non-numeric).",
+        level_text="Exploration: has_line_info, the five summary fields and is_valid are compared with folds computed from the AST for files built to stress scan limits (decisive records beyond item 50, after error lines, after 5000 unmapped methods, in an unterminated last line) and header handling (repeated, valueless, malformed, non-numeric); a third of the files glue a class line or sourceFile header to the next record without a terminator (records are not line-aligned), and every answer is asked twice, in another order and on a clone.",
         level_note="Trusted: the fold definitions in model.rs (transcribed from the statement), AST printer.",
     ),
     "C20": dict(
         technique="run-time auto-trait probes + concurrent-vs-sequential answer monitor on shared handles (history + sequential model) + ThreadSanitizer + Miri many-seeds race detection",
-        level_text="Exploration over schedules: Send/Sync of 13 public types is observed at run time by probes that compile either way (so a lost auto trait is a reported violation, not a build failure); batches of mixed queries are issued from 2..16 threads against one shared mapper and one shared cache (shared through a force-Sync wrapper so the experiment runs even if the compiler would refuse) and compared with the answers obtained alone; observed overlap (same-key queries with overlapping ticket intervals) and distinct interleaving signatures are measured; TSan and Miri with 4/16 schedule seeds look for data races by happens-before.",
+        level_text="Exploration over schedules: Send/Sync of 13 public types is observed at run time by probes that compile either way (so a lost auto trait is a reported violation, not a build failure); batches of mixed queries are issued from 2..16 threads against one shared mapper and one shared cache (shared through a force-Sync wrapper so the experiment runs even if the compiler would refuse) and compared with the answers obtained alone. The shared handles are built on helper threads and stay cold until the workers start; expected answers come from separate instances; a second mapping with the same obfuscated names but other originals is queried by the same workers; observed overlap (same-key queries with overlapping ticket intervals) and distinct interleaving signatures are measured; TSan and Miri with 4/16 schedule seeds look for data races by happens-before.",
         level_note="Trusted: TSan (built with -Zbuild-std so std is instrumented), Miri's data-race detector, each gated by a canary that must fire. Limits: an order-dependent but Sync-preserving bug is only caught if a produced schedule exposes it.",
     ),
 }
